@@ -85,7 +85,7 @@ pub fn to_vec_stub8<T: Clone>(s: &[T]) -> Vec<T> {
     v
 }
 
-/// Allocation stubs with bound 64 (byte buffers of the page-index harnesses).
+/// Allocation stubs with bound 128 (byte buffers: page index, change records).
 pub fn with_capacity_stub64<T>(n: usize) -> Vec<T> {
     let sz = core::mem::size_of::<T>();
     if sz != 0 {
@@ -94,12 +94,12 @@ pub fn with_capacity_stub64<T>(n: usize) -> Vec<T> {
             _ => panic!("capacity overflow (Vec::with_capacity)"),
         }
     }
-    assert!(n <= 64, "VERIF: bound exceeded: Vec::with_capacity");
-    Vec::with_capacity_in(64, std::alloc::Global)
+    assert!(n <= 128, "VERIF: bound exceeded: Vec::with_capacity");
+    Vec::with_capacity_in(128, std::alloc::Global)
 }
 pub fn reserve_stub64<T, A: std::alloc::Allocator>(v: &mut Vec<T, A>, additional: usize) {
-    assert!(v.len() + additional <= 64, "VERIF: bound exceeded: Vec::reserve");
-    if v.capacity() < 64 {
-        v.reserve_exact(64 - v.len());
+    assert!(v.len() + additional <= 128, "VERIF: bound exceeded: Vec::reserve");
+    if v.capacity() < 128 {
+        v.reserve_exact(128 - v.len());
     }
 }
